@@ -2,7 +2,7 @@
    extracted inductive types; no Extract Constant / Extract Inductive of our own. *)
 From Coq Require Extraction.
 From Coq Require Import ExtrOcamlBasic.
-From Octo Require Import Base.Bytes Crypto.Prims Lib.Framed Lib.WsFramed Model.PacketWindow Model.Utf8 Model.Address Model.NonceGen Model.SsChunk Model.SsTcp Model.Trojan Model.Socks5 Model.Http Model.Vmess Model.Config.
+From Octo Require Import Base.Bytes Crypto.Prims Lib.Framed Lib.WsFramed Model.PacketWindow Model.Utf8 Model.Address Model.NonceGen Model.SsChunk Model.SsTcp Model.Trojan Model.Socks5 Model.Http Model.Handshake Model.Vmess Model.Config.
 From Octo Require Import Model.SsUdp.
 Extraction Language OCaml.
 Extraction "model.ml"
@@ -15,6 +15,7 @@ Extraction "model.ml"
   trojan_server_decode trojan_client_udp_decode trojan_client_head trojan_packet_encode trojan_key hex_encode
   s5_initial_request s5_command_request s5_initial_response s5_command_response s5_udp_decode s5_udp_encode
   recognize_http
+  request_parse recognize_step consume_head_step handshake
   body_new encode_payload_v encode_packet_v decode_payload_v decode_packet_v resp_key resp_iv
   server_vdecode server_vencode client_vencode client_vdecode kdf16 auth_id_create seal_header open_header parse_header header_bytes fnv1a32
   q_cipher q_protocol q_mode q_kind q_object q_kdf q_b64 q_keys q_user q_path q_vmess
